@@ -313,6 +313,7 @@ def run(ctx):
     bi_cases, bi_meta = [], []
     ctor_cases, ctor_meta = [], []
     conv_cases, conv_meta = [], []
+    seq_cases, seq_meta = [], []
 
     for ii, inst in enumerate(insts):
         kinds = FORM_KINDS if (thorough or ii % 2 == 0) else [rng.choice(FORM_KINDS[:1] + FORM_KINDS[2:3]), rng.choice(FORM_KINDS[1:])]
@@ -412,6 +413,55 @@ def run(ctx):
                     fcoq = float_term(form)
                     bell_float.append(tup(fcoq, flist(vbig), flist(Tv), natlist(sg))); meta_float.append(dict(inp, v=vbig))
                     ctx.count("bellman:huge v 2^%d" % e)
+
+                # ---- call SEQUENCES on one DiscreteDP object: every returned array is kept and checked only at the END
+                # (a result must not be overwritten by a later call; results of different calls must not alias)
+                for use_out in (False, True):
+                    v0 = dyadic_v(rng, inst.n)
+                    v0f = np.array([float(x) for x in v0])
+                    if use_out:
+                        b1, b2 = np.empty(inst.n), np.empty(inst.n)
+                        g1, g2 = np.empty(inst.n, dtype=int), np.empty(inst.n, dtype=int)
+                        r1 = ddp.bellman_operator(v0f, Tv=b1)
+                        r2 = ddp.bellman_operator(r1, Tv=b2)
+                        s1 = ddp.compute_greedy(r1, sigma=g1)
+                        s2 = ddp.compute_greedy(v0f, sigma=g2)
+                        if r1 is not b1 or r2 is not b2 or s1 is not g1 or s2 is not g2:
+                            ctx.fail("sequence_out_arrays", "a supplied output array was not the one returned", inp, None, None)
+                    else:
+                        r1 = ddp.bellman_operator(v0f)
+                        r2 = ddp.bellman_operator(r1)
+                        s1 = ddp.compute_greedy(r1)
+                        s2 = ddp.compute_greedy(v0f)
+                    w = ddp.T_sigma(s1)(v0f)
+                    r3 = ddp.bellman_operator(v0f)          # same argument again: must equal r1, in a different array
+                    ev = ddp.evaluate_policy(s1) if inst.beta < 1 else None
+                    arrays = [r1, r2, r3, s1, s2, w, v0f] + ([ev] if ev is not None else [])
+                    if any(np.shares_memory(x, y) for i_, x in enumerate(arrays) for y in arrays[i_ + 1:]):
+                        ctx.fail("sequence_aliasing", "results of different calls on one DiscreteDP share memory (a later call overwrites an earlier result)",
+                                 dict(inp, v0=v0, supplied_out_arrays=use_out), None, None)
+                    ctx.count("call sequence:" + ("supplied Tv/sigma" if use_out else "no output arrays"))
+                    # read everything only now
+                    R1 = [float(x) for x in r1]; R2 = [float(x) for x in r2]; R3 = [float(x) for x in r3]
+                    S1 = [int(x) for x in s1]; S2 = [int(x) for x in s2]; W = [float(x) for x in w]
+                    if [float(x) for x in v0f] != [float(x) for x in v0]:
+                        ctx.fail("sequence_argument_mutated", "the argument v was modified by a call", dict(inp, v0=v0), list(v0f), None)
+                    e1, _ = o_bellman(inst, v0); e2, _ = o_bellman(inst, e1)
+                    ok_seq = all(close(x, y) for x, y in zip(R1, e1)) and all(close(x, y) for x, y in zip(R2, e2)) \
+                        and all(close(x, y) for x, y in zip(R3, e1)) and sigma_is_near_greedy(inst, e1, S1) and sigma_is_near_greedy(inst, v0, S2)
+                    if ok_seq:
+                        eW = [inst.R[s_][S1[s_]] + inst.beta * sum(q * x for q, x in zip(inst.Q[s_][S1[s_]], v0)) for s_ in range(inst.n)]
+                        ok_seq = all(close(x, y) for x, y in zip(W, eW))
+                        if ok_seq and ev is not None:
+                            ov = o_policy_value(inst, S1)
+                            ok_seq = ov is not None and all(close(float(x), y) for x, y in zip(ev, ov))
+                    if not ok_seq:
+                        ctx.fail("sequence_values", "after a sequence of calls on one DiscreteDP an earlier result no longer equals its exact value",
+                                 dict(inp, v0=v0, supplied_out_arrays=use_out), {"T v0": R1, "T T v0": R2, "T v0 again": R3, "greedy(T v0)": S1, "greedy(v0)": S2, "T_sigma v0": W},
+                                 {"T v0": e1, "T T v0": e2})
+                    seq_cases.append(tup(form.coq, qlist(v0), qlist([frac(x) for x in R1]), qlist([frac(x) for x in R2]), qlist([frac(x) for x in R3]),
+                                         natlist(S1), natlist(S2), qlist([frac(x) for x in W])))
+                    seq_meta.append(dict(inp, v0=v0, supplied_out_arrays=use_out))
 
                 # ---- RQ_sigma / T_sigma / controlled_mc / evaluate_policy over feasible policies
                 pols = feasible_policies(inst, rng, 24 if inst.n <= 4 else 8) if (thorough or ii % 3 == 0) else feasible_policies(inst, rng, 3)
@@ -554,6 +604,13 @@ def run(ctx):
                         "fun c => let '(cd, v, tv, sg) := c in with_ok cd (fun d => Fs_eqb (bellman_operator d v) tv && nats_eqb (compute_greedy d v) sg)",
                         bell_float, chunk=60, preamble=PREAMBLE)
     report(bad, "C09.Model.bellman_operator/compute_greedy (PrimFloat instance, bit-exact on huge dyadic v) vs DiscreteDP", meta_float)
+    # model fold over the same operations: T v0, T (T v0), T v0 again, greedy(T v0), greedy(v0), T_sigma(greedy) v0
+    bad = ctx.coq_check("call_sequence", IMPORTS, DD + " * list Q * list Q * list Q * list Q * list nat * list nat * list Q",
+                        "fun c => let '(cd, v0, r1, r2, r3, s1, s2, w) := c in with_ok cd (fun d => let t1 := bellman_operator d v0 in "
+                        "Qs_close %s t1 r1 && Qs_close %s (bellman_operator d t1) r2 && Qs_close %s t1 r3 && near_greedy %s d t1 s1 && "
+                        "near_greedy %s d v0 s2 && match T_sigma d s1 v0 with Some y => Qs_close %s y w | None => false end)"
+                        % (TOLQ, TOLQ, TOLQ, TOLQ, TOLQ, TOLQ), seq_cases, chunk=60, preamble=PREAMBLE)
+    report(bad, "C09.Model fold over a call sequence (results read at the end) vs one DiscreteDP object", seq_meta)
     bad = ctx.coq_check("RQ_sigma_T_sigma", IMPORTS, DD + " * list (list nat * list Q * list (list Q) * list Q * list Q)",
                         "fun c => let '(cd, ts) := c in with_ok cd (fun d => forallb (fun t => let '(sg, Rs, Qs, v, tsv) := t in "
                         "match RQ_sigma_fin d sg, controlled_mc d sg, T_sigma d sg v with "
